@@ -17,6 +17,8 @@ import (
 	"sync"
 	"sync/atomic"
 	"time"
+
+	"a0verif/instr"
 )
 
 // Trouble is infrastructure trouble: exit 2, never a verdict.
@@ -37,6 +39,8 @@ type Env struct {
 	GoEnv   []string
 	jobCtr  int64
 	Verbose bool
+	goroot  string
+	Clocks  map[string]*instr.ClockReport // clock seam of each scratch copy, by module file name
 }
 
 func envInt(name string, def int) int {
@@ -157,7 +161,38 @@ func (e *Env) CopyRepoAs(name string) (string, error) {
 	}
 	sum, _ := os.ReadFile(filepath.Join(dst, "go.sum"))
 	own, _ := os.ReadFile(filepath.Join(e.Home, "go.sum"))
-	return dst, os.WriteFile(filepath.Join(e.Scr, modName+".sum"), append(sum, own...), 0644)
+	if err := os.WriteFile(filepath.Join(e.Scr, modName+".sum"), append(sum, own...), 0644); err != nil {
+		return "", Troublef("%v", err)
+	}
+	// the clock seam: generated packages always, import "time" of library files redirected to the shim
+	if e.goroot == "" {
+		out, err := e.Go(e.Home, "env", "GOROOT")
+		if err != nil {
+			return "", Troublef("go env GOROOT: %v %s", err, out)
+		}
+		lines := strings.Split(strings.TrimSpace(out), "\n")
+		e.goroot = strings.TrimSpace(lines[len(lines)-1])
+	}
+	cr, err := instr.Clock(dst, e.goroot)
+	if err != nil {
+		return "", Troublef("clock seam: %v", err)
+	}
+	if e.Clocks == nil {
+		e.Clocks = map[string]*instr.ClockReport{}
+	}
+	e.Clocks[modName] = cr
+	if len(cr.Rewritten) > 0 {
+		e.Logf("clock seam: import \"time\" redirected to the simulated clock in %v", cr.Rewritten)
+	}
+	return dst, nil
+}
+
+// ClockFiles lists the library files of a scratch copy that read the simulated clock.
+func (e *Env) ClockFiles(mod string) []string {
+	if cr := e.Clocks[mod]; cr != nil {
+		return cr.Rewritten
+	}
+	return nil
 }
 
 func (e *Env) RepoCopy() string { return filepath.Join(e.Scr, "repo") }
@@ -187,6 +222,14 @@ func (e *Env) BuildHarnessMod(mod, pkg, name string, extra ...string) (string, e
 	args = append(args, extra...)
 	args = append(args, "-o", out, pkg)
 	if o, err := e.Go(e.Home, args...); err != nil {
+		if cr := e.Clocks[mod]; cr != nil && len(cr.Rewritten) > 0 {
+			// the shim does not cover what this tree does with package time: give the seam up for this copy, never the check
+			e.Logf("CLOCK-SEAM-UNAVAILABLE for %s: the tree does not build against the simulated clock; real clock used. %s", mod, firstLine(o))
+			if err := cr.Undo(); err != nil {
+				return "", Troublef("clock seam undo: %v", err)
+			}
+			return e.BuildHarnessMod(mod, pkg, name, extra...)
+		}
 		return "", Troublef("BUILD-TROUBLE building %s against the working tree with -tags verif failed:\n%s", pkg, o)
 	}
 	return out, nil
